@@ -9,6 +9,7 @@ import (
 	"github.com/nspcc-dev/neo-go/pkg/core/state"
 	"github.com/nspcc-dev/neo-go/pkg/core/transaction"
 	"github.com/nspcc-dev/neo-go/pkg/crypto/keys"
+	"github.com/nspcc-dev/neo-go/pkg/encoding/bigint"
 	"github.com/nspcc-dev/neo-go/pkg/network/capability"
 	"github.com/nspcc-dev/neo-go/pkg/network/payload"
 	"github.com/nspcc-dev/neo-go/pkg/smartcontract/callflag"
@@ -558,7 +559,140 @@ func (g *G) item(depth int, budget *int) stackitem.Item {
 	}
 }
 
+// sharedItem builds an item in which ONE compound object is referenced many times, with the total number of
+// (tree) items around the serialisation limit: the serialiser caches the bytes and the item count of a compound
+// it has already written (serialization.go `seen`), which must charge every reference in full.
+func (g *G) sharedItem() stackitem.Item {
+	var inner stackitem.Item
+	k := g.r.Intn(4) // size of the shared object
+	switch g.r.Intn(3) {
+	case 0:
+		m := stackitem.NewMap()
+		for i := 0; i < k; i++ {
+			m.Add(stackitem.NewBigInteger(big.NewInt(int64(i))), g.primitive())
+		}
+		inner = m
+	case 1:
+		arr := make([]stackitem.Item, k)
+		for i := range arr {
+			arr[i] = g.primitive()
+		}
+		inner = stackitem.NewArray(arr)
+	default:
+		arr := make([]stackitem.Item, k)
+		for i := range arr {
+			arr[i] = g.primitive()
+		}
+		inner = stackitem.NewStruct(arr)
+	}
+	c := itemCount(inner, 0)
+	mid := inner
+	cm := c
+	if g.r.Chance(1, 3) { // one more level of sharing
+		n := 1 + g.r.Intn(6)
+		refs := make([]stackitem.Item, n)
+		for i := range refs {
+			refs[i] = inner
+		}
+		mid = stackitem.NewArray(refs)
+		cm = 1 + n*c
+	}
+	// outer: N references, 1 + N*cm items in total, around MaxSerialized
+	n := (stackitem.MaxSerialized - 1) / cm
+	switch g.r.Intn(6) {
+	case 0:
+		n--
+	case 1:
+		n++
+	case 2:
+		n += 1 + g.r.Intn(n/2+2)
+	case 3:
+		n = 1 + g.r.Intn(n+1)
+	}
+	if n < 0 {
+		n = 0
+	}
+	refs := make([]stackitem.Item, n)
+	for i := range refs {
+		refs[i] = mid
+	}
+	if g.r.Chance(1, 4) {
+		m := stackitem.NewMap()
+		for i := range refs {
+			m.Add(stackitem.NewBigInteger(big.NewInt(int64(i))), refs[i])
+		}
+		return m
+	}
+	return stackitem.NewArray(refs)
+}
+
+// itemCount is the number of items of the tree unfolding of it (every reference counted), capped.
+func itemCount(it stackitem.Item, depth int) int {
+	if depth > 3000 {
+		return 1 << 30
+	}
+	n := 1
+	switch t := it.(type) {
+	case *stackitem.Array, *stackitem.Struct:
+		for _, x := range t.Value().([]stackitem.Item) {
+			n += itemCount(x, depth+1)
+			if n > 1<<24 {
+				return n
+			}
+		}
+	case *stackitem.Map:
+		for _, e := range t.Value().([]stackitem.MapElement) {
+			n += itemCount(e.Key, depth+1) + itemCount(e.Value, depth+1)
+			if n > 1<<24 {
+				return n
+			}
+		}
+	}
+	return n
+}
+
+// itemSize is the length of the tree serialisation of it, capped.
+func itemSize(it stackitem.Item, depth int) int {
+	if depth > 3000 {
+		return 1 << 30
+	}
+	switch t := it.(type) {
+	case *stackitem.ByteArray:
+		return 1 + len(minimalVarUint(uint64(len(*t)))) + len(*t)
+	case *stackitem.Buffer:
+		return 1 + len(minimalVarUint(uint64(len(*t)))) + len(*t)
+	case stackitem.Bool:
+		return 2
+	case *stackitem.BigInteger:
+		return 2 + len(bigint.ToBytes(t.Big()))
+	case *stackitem.Array, *stackitem.Struct:
+		v := t.Value().([]stackitem.Item)
+		n := 1 + len(minimalVarUint(uint64(len(v))))
+		for _, x := range v {
+			n += itemSize(x, depth+1)
+			if n > 1<<28 {
+				return n
+			}
+		}
+		return n
+	case *stackitem.Map:
+		v := t.Value().([]stackitem.MapElement)
+		n := 1 + len(minimalVarUint(uint64(len(v))))
+		for _, e := range v {
+			n += itemSize(e.Key, depth+1) + itemSize(e.Value, depth+1)
+			if n > 1<<28 {
+				return n
+			}
+		}
+		return n
+	}
+	return 1
+}
+
 func (g *G) stackItem() stackitem.Item {
+	if g.r.Chance(1, 5) {
+		return g.sharedItem()
+	}
 	budget := 1 + g.r.Intn(30)
 	if g.r.Chance(1, 10) {
 		budget = stackitem.MaxDeserialized - 3 + g.r.Intn(6) // around the count limit
